@@ -180,7 +180,7 @@ func fill(v reflect.Value, c *fillCtx, depth int) {
 	case reflect.Interface:
 		if t == readCloserType || t.String() == "io.Reader" {
 			body := []string{"raw bytes", "line1\nline2", "\x00\x01\xff", "not json {"}[c.r.intn(4)]
-			v.Set(reflect.ValueOf(rbody{bytes.NewReader([]byte(body))}))
+			v.Set(reflect.ValueOf(rbody{r: bytes.NewReader([]byte(body))}))
 			return
 		}
 		var x any
@@ -232,7 +232,7 @@ func snapshotBodies(v reflect.Value) {
 			if f.Kind() == reflect.Interface && !f.IsNil() && f.CanSet() {
 				if rd, ok := f.Interface().(io.Reader); ok {
 					bs, _ := io.ReadAll(rd)
-					f.Set(reflect.ValueOf(rbody{bytes.NewReader(bs)}))
+					f.Set(reflect.ValueOf(rbody{r: bytes.NewReader(bs)}))
 					continue
 				}
 			}
@@ -246,11 +246,40 @@ func snapshotBodies(v reflect.Value) {
 // rbody is a re-readable body: dumps drain it and rewind it.
 // It deliberately offers Read / Seek / Close only (no WriteTo, no ReadFrom), so that io.Copy and
 // friends take their generic buffered path, as they do for a network or file body.
-type rbody struct{ r *bytes.Reader }
+type rbody struct {
+	r    *bytes.Reader
+	cerr error // what Close reports (bodies of the concurrent phase: some fail to close, each with its own text)
+}
 
 func (b rbody) Read(p []byte) (int, error)                { return b.r.Read(p) }
 func (b rbody) Seek(off int64, whence int) (int64, error) { return b.r.Seek(off, whence) }
-func (rbody) Close() error                                { return nil }
+func (b rbody) Close() error                              { return b.cerr }
+
+// armCloseErrors makes about half of the raw bodies in v fail on Close, each with a text of its own
+// (generated code reports such errors through the package's LogError from every request goroutine).
+func armCloseErrors(v reflect.Value, r *rnd) {
+	arm := func(f reflect.Value) {
+		if f.Kind() == reflect.Interface && !f.IsNil() && f.CanSet() {
+			if rb, ok := f.Interface().(rbody); ok && r.intn(2) == 0 {
+				rb.cerr = fmt.Errorf("close failed %d", r.intn(100000))
+				f.Set(reflect.ValueOf(rb))
+			}
+		}
+	}
+	switch v.Kind() {
+	case reflect.Interface:
+		arm(v)
+	case reflect.Struct:
+		for i := 0; i < v.NumField(); i++ {
+			f := v.Field(i)
+			if f.Kind() == reflect.Struct {
+				armCloseErrors(f, r)
+			} else {
+				arm(f)
+			}
+		}
+	}
+}
 
 type recordingClient struct {
 	api  http.Handler
